@@ -11,7 +11,24 @@ for ID in $IDS; do
   [ -f "$D/patch.diff" ] || continue
   PROP=$(python3 -c "import json;print(json.load(open('$D/meta.json'))['property'])" 2>/dev/null) || continue
   git -C "$WT" checkout -q -- . && git -C "$WT" apply "$D/patch.diff" 2>/dev/null || { echo "$ID $PROP patch-does-not-apply"; continue; }
-  OUT=$(cd "$HERE" && PYVC_REPO="$WT" ./check "$PROP" --no-evidence 2>&1)
+  UNITS=$(python3 - "$D/meta.json" <<'PY'
+import json, re, sys
+m = json.load(open(sys.argv[1]))
+us = []
+for c in m.get('caught_by', []):
+    head = c.split(':', 1)[0]
+    for u in re.split(r'[,/]| and ', head):
+        u = u.strip()
+        if re.match(r'^[A-Za-z_][A-Za-z0-9_.\-]*$', u) and not u.startswith(('lemma', 'bounded', 'new')):
+            us.append(u)
+print(','.join(dict.fromkeys(us)))
+PY
+)
+  if [ -n "$UNITS" ] && [ "${FULL:-0}" != "1" ]; then
+    OUT=$(cd "$HERE" && PYVC_REPO="$WT" ./check "$PROP" --no-evidence --units "$UNITS" 2>&1)
+  else
+    OUT=$(cd "$HERE" && PYVC_REPO="$WT" ./check "$PROP" --no-evidence 2>&1)
+  fi
   RC=$?
   V=$(echo "$OUT" | grep -E "^VIOLATION" | head -1 | sed 's/.*obligation=//' | cut -c1-110)
   U=$(echo "$OUT" | grep -E "^(UNDECIDED|CHECKER)" | head -1 | cut -c1-90)
